@@ -193,10 +193,69 @@ def _sig_hardbreak_in_setext(case: dict, f: Failure) -> bool:
     return _has_heading_with_br(canon.canon_in(case["text"])[1])
 
 
+_TAG_EDGE = _re.compile(r"^[ \t>]*(\{%|\{\{|\{#|<!--)|(%\}|\}\}|#\}|-->)[ \t]*\\?$", _re.M)
+_ESC_NUM_LINE = _re.compile(r"^[ \t>]*(?:[-*+] +)?\d{1,9}\\[.)]", _re.M)
+
+
+def _sig_escaped_numeral_in_tag_paragraph(case: dict, f: Failure) -> bool:
+    """A paragraph holds a line that starts or ends with a tag delimiter AND a source line that starts with an escaped
+    numeral ("1" backslash "." "x"): the renderer drops that escape (the accumulated text is not all digits), and the tag heuristics, on
+    for this paragraph, take the line "1. x" for a list item and keep it on its own line, unescaped."""
+    if case.get("kind", "doc") != "doc":
+        return False
+    x, width, semantic = _case_xo(case)
+    if not (_TAG_EDGE.search(x) and _ESC_NUM_LINE.search(x)):
+        return False
+    # the round trip holds once those numeral escapes are replaced by an entity (no escape to drop)
+    x2 = _re.sub(r"^([ \t>]*(?:[-*+] +)?\d{1,9})\\([.)])", lambda m: m.group(1) + ("&#46;" if m.group(2) == "." else "&#41;"), x, flags=_re.M)
+    return _rt_ok(x2, width, semantic)
+
+
+def _sig_escaped_backticks(case: dict, f: Failure) -> bool:
+    """The output protects a fence-like word at a line start by escaping its backticks; Marko's inline parser then no longer
+    finds code spans that follow in the paragraph (each escaped backtick is still tried as a code-span delimiter by its
+    non-overlapping scan and swallows the real opener). With the escaped backticks written as entities the output reads back
+    as the input does."""
+    if case.get("kind", "doc") != "doc":
+        return False
+    x, width, semantic = _case_xo(case)
+    out = _fmt_c01(x, width, semantic)
+    if "\\`" not in out:
+        return False
+    # (a private-use character stands in for the escaped backtick on both sides)
+    return canon.canon_out(out.replace("\\`", "\ue000"))[1] == canon.map_text(canon.canon_in(x), lambda t: t.replace("`", "\ue000"))[1]
+
+
+def _sig_closing_tag_alone_after_marker(case: dict, f: Failure) -> bool:
+    """Wrapping leaves a closing tag alone on the line right after a list marker line: it is then handled as a block-level
+    closing tag (un-indented, set off by a blank line) and leaves the list item."""
+    if case.get("kind", "doc") != "doc":
+        return False
+    x, width, semantic = _case_xo(case)
+    out = _fmt_c01(x, width, semantic)
+    closing = _re.compile(r"^(\{% /|\{# /|\{\{ /|<!-- /).*(%\}|#\}|\}\}|-->)$")
+    ol = out.split("\n")
+    src = {l.strip() for l in x.split("\n")}
+    return any(closing.match(l) and l.strip() not in src and i >= 2 and ol[i - 1] == "" and _re.match(r"^[ >]*([-*+]|\d+[.)]) ", ol[i - 2]) for i, l in enumerate(ol))
+
+
+def _sig_task_marker_before_hard_break(case: dict, f: Failure) -> bool:
+    """A task item whose text is nothing but a hard line break after the checkbox ("* [ ]" + two spaces or a backslash at
+    the line end): the output writes "[ ]\\", which is no checkbox any more."""
+    if case.get("kind", "doc") != "doc":
+        return False
+    return _re.search(r"^[ \t>]*(?:(?:[-*+]|\d+[.)])[ \t]+)?\[[ xX]\](?:[ \t]{2,}|[ \t]*\\)$", case["text"], _re.M) is not None
+
+
+DECOMPOSE_KEY = "text"  # several recorded findings in one document: see core.sig_hit
+
 SIGS = {
+    "task_marker_before_hard_break": _sig_task_marker_before_hard_break,
+    "escaped_backticks_hide_code_span": _sig_escaped_backticks,
+    "closing_tag_alone_after_marker_line": _sig_closing_tag_alone_after_marker,
+    "escaped_numeral_in_tag_paragraph": _sig_escaped_numeral_in_tag_paragraph,
     "hardbreak_in_setext_heading": _sig_hardbreak_in_setext,
     "semantic_sentence_start_unescaped": _sig_semantic_sentence_start,
-    "lone_backslash_line_end": _sig_trailing_backslash,
 }
 
 # ---------------------------------------------------------------------------------------------------
